@@ -9,6 +9,7 @@ from sim.install import CTX
 from checks import c13
 
 PROP = 'C16'
+TECHNIQUE = 'deterministic simulation: every request reaching the fake S3 service re-verified by an independent SigV4 implementation; simulated clock incl. date roll-over and retries'
 LEVEL = 'exploration'
 RULE = ('one case = a seeded sequence of 8..30 adapter operations (upload of bytes, streamed upload, HEAD, GET, streamed GET, DELETE, prefix '
         'listing with server page sizes 1..3 and continuation tokens containing +,/,=,&,%,space and non-ASCII) on the REAL S3Compatible / S3 '
